@@ -246,3 +246,154 @@ def parse_model(out):
 
     walk(sx)
     return d
+
+
+# --------------------------------------------------------------------------- EUF abstraction of floating-point arithmetic
+_FP_ARITH = None
+
+
+def _fp_arith_kinds():
+    global _FP_ARITH
+    if _FP_ARITH is None:
+        names = ["Z3_OP_FPA_ADD", "Z3_OP_FPA_SUB", "Z3_OP_FPA_MUL", "Z3_OP_FPA_DIV", "Z3_OP_FPA_FMA", "Z3_OP_FPA_SQRT", "Z3_OP_FPA_REM",
+                 "Z3_OP_FPA_ROUND_TO_INTEGRAL", "Z3_OP_FPA_TO_FP", "Z3_OP_FPA_TO_FP_UNSIGNED", "Z3_OP_FPA_TO_UBV", "Z3_OP_FPA_TO_SBV"]
+        _FP_ARITH = {getattr(z3, n) for n in names if hasattr(z3, n)}
+    return _FP_ARITH
+
+
+def abstract_fp(formulas):
+    """Replace every floating-point ARITHMETIC operator application by an uninterpreted function of the same signature
+    (comparisons, constants and ite stay interpreted).  Sound for proving unsatisfiability: any model of the original
+    formulas is a model of the abstraction.  Returns (abstracted formulas, number of abstracted applications)."""
+    kinds = _fp_arith_kinds()
+    cache = {}
+    ufs = {}
+    count = [0]
+
+    def rec(e):
+        k = e.get_id()
+        r = cache.get(k)
+        if r is not None:
+            return r
+        if not z3.is_app(e) or e.num_args() == 0:
+            cache[k] = e
+            return e
+        args = [rec(e.arg(i)) for i in range(e.num_args())]
+        d = e.decl()
+        if d.kind() in kinds:
+            sig = (d.name(), tuple(a.sort().sexpr() for a in args), e.sort().sexpr(), tuple(d.params()) if False else ())
+            f = ufs.get(sig)
+            if f is None:
+                f = z3.Function(f"abs!{d.name()}!{len(ufs)}", *[a.sort() for a in args], e.sort())
+                ufs[sig] = f
+            r = f(*args)
+            count[0] += 1
+        else:
+            same = all(a.eq(e.arg(i)) for i, a in enumerate(args))
+            r = e if same else d(*args)
+        cache[k] = r
+        return r
+
+    return [rec(f) for f in formulas], count[0]
+
+
+def abstract_fp_with_lemmas(formulas):
+    """abstract_fp + instances of IEEE-754 round-to-nearest monotonicity lemmas for the abstracted add / div applications:
+         L1  0<=x1<=x2 & 0<=y1<=y2            =>  0 <= add(x1,y1) <= add(x2,y2)
+         L2  0<=x & 0<=y                      =>  x <= add(x,y)  &  y <= add(x,y)
+         L3  0<=x1<=x2 & 0<y                  =>  0 <= div(x1,y) <= div(x2,y)
+         L4  0<=x<=y & 0<y                    =>  div(x,y) <= 1  ;   0<x => div(x,x) == 1
+       (true of correctly rounded arithmetic on non-NaN operands; each is itself checked by the solver in the thorough tier)"""
+    kinds = _fp_arith_kinds()
+    cache = {}
+    ufs = {}
+    apps = {"add": [], "div": []}
+
+    def rec(e):
+        k = e.get_id()
+        r = cache.get(k)
+        if r is not None:
+            return r
+        if not z3.is_app(e) or e.num_args() == 0:
+            cache[k] = e
+            return e
+        args = [rec(e.arg(i)) for i in range(e.num_args())]
+        d = e.decl()
+        if d.kind() in kinds:
+            sig = (d.name(), tuple(a.sort().sexpr() for a in args), e.sort().sexpr())
+            f = ufs.get(sig)
+            if f is None:
+                f = z3.Function(f"abs!{d.name()}!{len(ufs)}", *[a.sort() for a in args], e.sort())
+                ufs[sig] = f
+            r = f(*args)
+            if d.kind() == z3.Z3_OP_FPA_ADD and len(args) == 3:
+                apps["add"].append((args[1], args[2], r))
+            elif d.kind() == z3.Z3_OP_FPA_DIV and len(args) == 3:
+                apps["div"].append((args[1], args[2], r))
+        else:
+            same = all(a.eq(e.arg(i)) for i, a in enumerate(args))
+            r = e if same else d(*args)
+        cache[k] = r
+        return r
+
+    out = [rec(f) for f in formulas]
+    lem = []
+    seen = set()
+
+    def uniq(lst):
+        u = []
+        for t in lst:
+            key = t[2].get_id()
+            if key not in seen:
+                seen.add(key)
+                u.append(t)
+        return u
+
+    adds = uniq(apps["add"])
+    divs = uniq(apps["div"])
+    if len(adds) > 60 or len(divs) > 30:
+        return out, 0
+    zero = lambda s: z3.FPVal(0.0, s)  # noqa: E731
+    for (x, y, r) in adds:
+        z = zero(x.sort())
+        lem.append(z3.Implies(z3.And(z3.fpLEQ(z, x), z3.fpLEQ(z, y)), z3.And(z3.fpLEQ(x, r), z3.fpLEQ(y, r))))
+    for i, (x1, y1, r1) in enumerate(adds):
+        z = zero(x1.sort())
+        for j, (x2, y2, r2) in enumerate(adds):
+            if i == j:
+                continue
+            lem.append(z3.Implies(z3.And(z3.fpLEQ(z, x1), z3.fpLEQ(x1, x2), z3.fpLEQ(z, y1), z3.fpLEQ(y1, y2)), z3.fpLEQ(r1, r2)))
+    for (x, y, r) in divs:
+        z = zero(x.sort())
+        one = z3.FPVal(1.0, x.sort())
+        fin = z3.And(z3.Not(z3.fpIsInf(x)), z3.Not(z3.fpIsInf(y)))
+        lem.append(z3.Implies(z3.And(z3.fpLEQ(z, x), z3.fpLT(z, y), fin), z3.fpLEQ(z, r)))
+        lem.append(z3.Implies(z3.And(z3.fpLEQ(z, x), z3.fpLEQ(x, y), z3.fpLT(z, y), fin), z3.fpLEQ(r, one)))
+        lem.append(z3.Implies(z3.And(z3.fpLT(z, x), z3.fpEQ(x, y), z3.Not(z3.fpIsInf(x))), z3.fpEQ(r, one)))
+    for i, (x1, y1, r1) in enumerate(divs):
+        z = zero(x1.sort())
+        for j, (x2, y2, r2) in enumerate(divs):
+            if i == j:
+                continue
+            lem.append(z3.Implies(z3.And(z3.fpLEQ(z, x1), z3.fpLEQ(x1, x2), z3.fpLT(z, y1), z3.fpEQ(y1, y2), z3.Not(z3.fpIsInf(x2)), z3.Not(z3.fpIsInf(y1))), z3.fpLEQ(r1, r2)))
+    return out + lem, len(lem)
+
+
+def lemma_self_check(timeout=300):
+    """the lemmas above as stand-alone f64 queries (each must be unsat when negated)"""
+    F = z3.Float64()
+    x1, x2, y1, y2 = z3.FPs("x1 x2 y1 y2", F)
+    rm = z3.RNE()
+    z = z3.FPVal(0.0, F)
+    one = z3.FPVal(1.0, F)
+    L = {
+        "add_monotone": z3.Implies(z3.And(z3.fpLEQ(z, x1), z3.fpLEQ(x1, x2), z3.fpLEQ(z, y1), z3.fpLEQ(y1, y2)), z3.fpLEQ(z3.fpAdd(rm, x1, y1), z3.fpAdd(rm, x2, y2))),
+        "add_ge_operands": z3.Implies(z3.And(z3.fpLEQ(z, x1), z3.fpLEQ(z, y1)), z3.And(z3.fpLEQ(x1, z3.fpAdd(rm, x1, y1)), z3.fpLEQ(y1, z3.fpAdd(rm, x1, y1)))),
+        "div_monotone_numerator": z3.Implies(z3.And(z3.fpLEQ(z, x1), z3.fpLEQ(x1, x2), z3.fpLT(z, y1), z3.Not(z3.fpIsInf(x2)), z3.Not(z3.fpIsInf(y1))), z3.And(z3.fpLEQ(z, z3.fpDiv(rm, x1, y1)), z3.fpLEQ(z3.fpDiv(rm, x1, y1), z3.fpDiv(rm, x2, y1)))),
+        "div_le_one": z3.Implies(z3.And(z3.fpLEQ(z, x1), z3.fpLEQ(x1, y1), z3.fpLT(z, y1), z3.Not(z3.fpIsInf(y1))), z3.fpLEQ(z3.fpDiv(rm, x1, y1), one)),
+        "div_self_is_one": z3.Implies(z3.And(z3.fpLT(z, x1), z3.Not(z3.fpIsInf(x1))), z3.fpEQ(z3.fpDiv(rm, x1, x1), one)),
+    }
+    res = {}
+    for n, f in L.items():
+        res[n] = decide([z3.Not(f)], timeout=timeout, tag="lemma_" + n, quick_inproc_ms=0)
+    return res
